@@ -2,6 +2,7 @@
 (* C06 - the NAME universe (purely enumerative model).  One case = one small namespace set in which ONE DSDL       *)
 (* identifier position carries a name of one lexical class, inside a host type of one kind:                       *)
 (*     position  x  class of name  x  index of the word within its class  x  kind of the host type                *)
+(*     (x type of the attribute when the position is a field)                                                       *)
 (* The words of a class live in the driver (vf/props/c06.py: keywords of C, keywords only C++ has, Python          *)
 (* keywords, Python builtins, reserved patterns of the C/C++ library, a pair of names that differ only by case),   *)
 (* filtered by what the front end accepts; w ranges over 1..MaxWords and the driver drops indices beyond a class. *)
@@ -15,22 +16,26 @@ CONSTANTS MaxWords
 Positions == {"ns", "nested_ns", "type", "field", "const"}
 Classes == {"plain", "c_kw", "cpp_kw", "py_kw", "py_builtin", "pattern", "case"}
 Kinds == {"struct", "union", "dunion", "service", "usvc", "empty", "deprecated", "maxwidth", "constants"}
+(* the type of the attribute that carries the name when the position is "field": the templates reach a field through *)
+(* different code paths (plain member, bit-packed boolean array member, array struct, wide integer)                  *)
+FieldTypes == {"u8", "i64", "boolfix", "boolvar", "f32arr"}
 
-VARIABLES pos, cls, kind, w
-vars == <<pos, cls, kind, w>>
+VARIABLES pos, cls, kind, w, ft
+vars == <<pos, cls, kind, w, ft>>
 
 (* DSDL facts: an empty type has no attributes that could carry a field name (constants are allowed);            *)
 (* the extreme-constant host is a structure whose constants are fixed, it hosts names in every position too.      *)
-Valid(p, c, k) ==
+Valid(p, c, k, f) ==
     /\ (k = "empty" => p # "field")
     /\ (c = "case" => p \in {"type", "field", "const", "nested_ns"})
+    /\ (p = "field" <=> f # "na")
 
 Init ==
-    /\ pos \in Positions /\ cls \in Classes /\ kind \in Kinds /\ w \in 1..MaxWords
-    /\ Valid(pos, cls, kind)
+    /\ pos \in Positions /\ cls \in Classes /\ kind \in Kinds /\ w \in 1..MaxWords /\ ft \in FieldTypes \cup {"na"}
+    /\ Valid(pos, cls, kind, ft)
 
 Next == UNCHANGED vars
 Spec == Init /\ [][Next]_vars
 
-Emit == PrintT(ToJson([pos |-> pos, cls |-> cls, kind |-> kind, w |-> w]))
+Emit == PrintT(ToJson([pos |-> pos, cls |-> cls, kind |-> kind, w |-> w, ft |-> ft]))
 =============================================================================
